@@ -539,7 +539,62 @@ def r6_scanner(ctx):
         pass
 
 
+STR_CUTTERS = {'find', 'index', 'partition', 'rpartition', 'split',
+               'rsplit', 'startswith', 'endswith', 'isdigit'}
+
+
+def r7_namespace_extraction(ctx):
+    """the decoder cuts the namespace out of the frame with the frame's own
+    two separators: it ends at the first ',' and anything from the first '?'
+    on is dropped - nothing else.  Every value assigned to self.namespace in
+    decode is built from the frame text by slicing and by str methods whose
+    constant arguments are ',' or '?'; any other function applied to it
+    (a URL parser drops '#...' and reads '//x' as an authority) changes
+    namespaces the encoder writes verbatim."""
+    m = ctx.model
+    f = m.own_method('Packet', 'decode')
+    from ..sym import with_new_helpers
+    n = 0
+    for g in with_new_helpers(m, f):
+        for a in walk_own(g.node):
+            if not isinstance(a, ast.Assign):
+                continue
+            tg = []
+            for t in a.targets:
+                tg += list(t.elts) if isinstance(t, (ast.Tuple, ast.List)) \
+                    else [t]
+            if not any(U(t) == 'self.namespace' for t in tg):
+                continue
+            if isinstance(a.value, ast.Constant):
+                continue
+            n += 1
+            bad = []
+            for x in ast.walk(a.value):
+                if isinstance(x, ast.Call):
+                    ok = isinstance(x.func, ast.Attribute) and \
+                        x.func.attr in STR_CUTTERS and all(
+                            isinstance(y, ast.Constant) and
+                            (y.value in (',', '?') or
+                             isinstance(y.value, int))
+                            for y in x.args) and not x.keywords
+                    if not ok:
+                        bad.append(x)
+            ctx.check(not bad, 'Packet.' + g.name, 'the namespace is cut out '
+                      'of the frame with the separators , and ? only',
+                      key='namespace-cut', reason='the namespace is computed '
+                      'through %s: characters other than the first "," and '
+                      '"?" change what namespace a frame is decoded to, '
+                      'while the encoder writes the namespace verbatim'
+                      % (U(bad[0])[:60] if bad else ''), where=where(g, a))
+    if not n:
+        raise AnalysisError('Packet.decode: no computed assignment to '
+                            'self.namespace found')
+
+
 def run(ctx):
+    ctx.rule('C01.R7', 'namespace extraction uses the frame\'s own '
+             'separators only', floor=2)
+    r7_namespace_extraction(ctx)
     ctx.rule('C01.R1', 'binary gate decision table (36 rows)', floor=36)
     r1_gate(ctx)
     ctx.rule('C01.R2', 'walker agreement: same container kinds, bytes leaf, '
